@@ -10,7 +10,7 @@ import asyncio
 import logging
 from collections.abc import Sequence
 
-from props.common import Injected, InjectedBase, describe_exc
+from props.common import Injected, InjectedBase, InjectedGeneratorExit, describe_exc
 from sim.loop import GRID, SimStop
 from sim.prop import Prop, sweep_expand
 
@@ -189,6 +189,9 @@ class DispDouble:
         sim.event("d-enter", self.uid)
         if self.spec["enter_raise"] or self.spec["exit_raise"]:
             sim.nontrivial = True
+        if self.spec.get("enter_spawns"):
+            # the resource starts a background task of the scope it belongs to (the scope's group is already current)
+            self.eng.spawn_from_double(self, held=self.spec["enter_spawns"] == 2)
         if self.spec["enter_pause"]:
             await sim.pause(f"de{self.uid}")
         if self.spec["enter_raise"]:
@@ -202,6 +205,11 @@ class DispDouble:
             return None
         if len(self.states) == 1 and self.spec["single"]:
             return self.states[0]
+        how = self.spec.get("yield_as", 0)
+        if how == 1:
+            return tuple(self.states)
+        if how == 2:
+            return iter(list(self.states))  # a one-shot iterable is a legal Iterable[State]
         return list(self.states)
 
     async def __aexit__(self, et, ev, tb):
@@ -231,6 +239,15 @@ class DispObj:
     def __bool__(self):
         return bool(self.use)
 
+    def __eq__(self, other):
+        # disposables may be value objects: distinct instances that compare equal (e.g. two pools for the same host)
+        if isinstance(other, DispObj) and self.use.spec.get("eq_group") and other.use.spec.get("eq_group"):
+            return True
+        return self is other
+
+    def __hash__(self):
+        return 7 if self.use.spec.get("eq_group") else id(self)
+
     async def __aenter__(self):
         return await self.use.__aenter__()
 
@@ -242,7 +259,7 @@ def only_injected(exc) -> bool:
     """An injected exception, or a group whose leaves are all injected exceptions (no CancelledError wrapped in it)."""
     if isinstance(exc, BaseExceptionGroup):
         return all(only_injected(sub) for sub in exc.exceptions)
-    return isinstance(exc, (Injected, InjectedBase))
+    return isinstance(exc, (Injected, InjectedBase, GeneratorExit))
 
 
 def reachable(target, root, seen=None) -> bool:
@@ -342,6 +359,7 @@ class Gen:
         self.val = 0
         self.used = {}
         self.last_disp_n = 0
+        self.recorded = {}
         self.actors = 1
         keys = [k for k, v in cfg["w"].items() if v]
         self.keys = keys
@@ -388,6 +406,11 @@ class Gen:
                 d["exit_raise"] = int(s.chance(c["disp_faults"], 6, "xraise")) * (1 + s.weighted((3, 1), "xraise-kind"))
                 d["exit_true"] = int(s.chance(1, 6, "xtrue"))
                 d["falsy"] = int(s.chance(1, 8, "falsy"))
+            d["yield_as"] = s.weighted((3, 1, 1), "yield-as")  # list, tuple, one-shot iterator
+            d["eq_group"] = int(s.chance(1, 6, "equal-disposables"))
+            if c["w"]["spawn"] and self.actors < c["max_actors"] and s.chance(1, 8, "enter-spawns"):
+                self.actors += 1
+                d["enter_spawns"] = 1 + s.draw(2, "enter-spawn-gate")
             out.append(d)
         return out
 
@@ -456,7 +479,14 @@ class Gen:
                     fail = 1 + s.draw(2, "fail-when")
                 ops.append(["spawn", via, {"gate": gate, "fail": fail}, self.block(depth + 1, False)])
             elif k == "record":
-                ops.append(["record", s.draw(2, "mtype"), self.fresh(), s.weighted((3, 3, 3, 1), "merge")])
+                mt = s.draw(2, "mtype")
+                seen_vals = self.recorded.setdefault(mt, [])
+                if seen_vals and s.chance(1, 5, "record-same-instance"):
+                    v = seen_vals[s.draw(len(seen_vals), "which-recorded")]  # the very same metric object again
+                else:
+                    v = self.fresh()
+                    seen_vals.append(v)
+                ops.append(["record", mt, v, s.weighted((3, 3, 3, 1), "merge")])
             elif k == "log":
                 if s.chance(1, 8, "set-level"):
                     ops.append(["loglevel", s.draw(2, "new-level")])
@@ -464,7 +494,7 @@ class Gen:
             elif k == "pause":
                 ops.append(["pause"])
             elif k == "raise_":
-                ops.append(["raise", 1 if (c["raise_base"] and s.chance(1, 4, "base")) else 0])
+                ops.append(["raise", (1 + s.weighted((2, 1), "base-kind")) if (c["raise_base"] and s.chance(1, 4, "base")) else 0])
                 break
             elif k == "cancel_self":
                 ops.append(["cancel_self"])
@@ -518,6 +548,7 @@ class Engine:
         self.loggers = [logging.getLogger(f"hv-L{i}") for i in range(3)]
         self.prebuilt = {}
         self.last_disposables = {}
+        self.metric_objs = {}
         self._idents = {}
         self.root_level = logging.DEBUG
 
@@ -737,7 +768,8 @@ class Engine:
             elif kind == "raise":
                 sim.stats["fault:body_raise"] += 1
                 sim.nontrivial = True
-                raise (InjectedBase if op[1] else Injected)(("raise", actor.aid, sim.seq))
+                # (kind 2 is a plain GeneratorExit: a scope inside an async generator that is being closed)
+                raise (Injected, InjectedBase, GeneratorExit)[op[1]](("raise", actor.aid, sim.seq))
             elif kind == "cancel_self":
                 self.op_cancel_self(actor)
             elif kind == "check_cancel":
@@ -1047,7 +1079,7 @@ class Engine:
             return "body-cancelled"
         if left is not f.body_exc and isinstance(left, asyncio.CancelledError):
             return "cancelled-in-exit"
-        return "body-raised-base" if isinstance(f.body_exc, InjectedBase) else "body-raised"
+        return "body-raised-base" if isinstance(f.body_exc, (InjectedBase, GeneratorExit)) else "body-raised"
 
     @staticmethod
     def diff(a, b):
@@ -1180,6 +1212,48 @@ class Engine:
         if len(self.actors) >= 2:
             sim.nontrivial = True
 
+    def spawn_from_double(self, double, held):
+        """A disposable's __aenter__ spawns a background task into the scope that is being entered."""
+        from haiway import ctx
+        sim = self.sim
+        frame = next((f for f in self.frames if f.uid == double.scope_uid), None)
+        owner = frame.actor if frame is not None else self.actors[0]
+        child = Actor(len(self.actors), list(owner.stack), parent=owner)
+        child.via = 0
+        child.held = held
+        self.actors.append(child)
+
+        async def background(tag):
+            child.started = True
+            sim.event("actor-start", child.aid)
+            try:
+                forced = await sim.gate(f"g{child.aid}", held=held)
+                if forced:
+                    child.gate_forced = True
+                    child.gate_forced_seq = sim.seq
+            except BaseException as exc:
+                child.end_exc = exc
+                raise
+            finally:
+                child.ended = True
+                sim.event("actor-end", child.aid, type(child.end_exc).__name__ if child.end_exc else "")
+
+        try:
+            child.task = ctx.spawn(background, child.aid)
+        except SimStop:
+            raise
+        except BaseException as exc:  # noqa: BLE001
+            sim.event("spawn-refused", child.aid, str(exc)[:40])
+            child.ended = True
+            return
+        child.task.add_done_callback(self._retrieve)
+        if frame is not None and frame.is_async:
+            frame.tasks.append(child)
+            child.spawned_in = frame
+        sim.stats["disposable_spawned_in_enter"] += 1
+        sim.event("spawn", owner.aid, child.aid, 0)
+        sim.nontrivial = True
+
     @staticmethod
     def _retrieve(t):
         if not t.cancelled():
@@ -1190,7 +1264,12 @@ class Engine:
         sim = self.sim
         _k, mi, val, merge = op
         M0, M1 = self.fam["metrics"]
-        metric = M0(v=val) if mi == 0 else M1(items=(val,))
+        key = (mi, val)
+        metric = self.metric_objs.get(key)
+        if metric is None:
+            metric = self.metric_objs[key] = M0(v=val) if mi == 0 else M1(items=(val,))
+        else:
+            sim.stats["same_metric_instance_recorded_again"] += 1
         scope = self.innermost_scope(actor.stack)
 
         def m_replace(lhs, rhs):
@@ -1507,6 +1586,8 @@ class Engine:
                 aborting = True
             if any(d.exit_exc is not None for d in inner_async.disposables):
                 aborting = True  # disposing already failed: the group is told about that error and aborts
+            if inner_async.tasks and any(d.enter_exc is not None for d in inner_async.disposables):
+                aborting = True  # entering failed after tasks were spawned: the roll-back leaves the group with that error
         self.cancel_info = {"victim": victim, "where": where, "aborting": aborting, "scope": inner_async,
                             "open_scopes": open_scopes,
                             "pending_children": [c for f in open_scopes for c in f.tasks if c.task is not None and not c.task.done()]}
@@ -1538,7 +1619,8 @@ class Engine:
         # harness-code failures inside actors are HARNESS, library failures are judged per property
         for a in self.actors:
             exc = a.end_exc
-            if exc is None or isinstance(exc, (Injected, InjectedBase, asyncio.CancelledError, BaseExceptionGroup)):
+            if exc is None or isinstance(exc, (Injected, InjectedBase, GeneratorExit, asyncio.CancelledError,
+                                               BaseExceptionGroup)):
                 continue
             origin = self.origin(exc)
             if origin == "harness":
@@ -1654,6 +1736,10 @@ class Engine:
                         return
                 if len(d.exit_calls) > 1:
                     sim.fail_post("exited-twice", f"disposable #{d.uid} exited {len(d.exit_calls)} times")
+                    return
+                if d.exit_calls and (d.enter_calls == 0 or d.enter_exc is not None):
+                    sim.fail_post("exited-without-enter", f"disposable #{d.uid} of scope #{f.uid} received __aexit__ although its "
+                                  f"__aenter__ {'was never called' if d.enter_calls == 0 else 'had failed'}")
                     return
                 if d.enter_done and len(d.exit_calls) != 1:
                     how = "enter-failed" if any_enter_failed else ("cancelled-in-enter" if not f.body_started else
@@ -1778,15 +1864,19 @@ class Engine:
                             cur[mi] = r
             return cur
 
-        def m_sum(cur, new):
-            if cur is MISSING:
-                return new
-            if isinstance(new, M0):
-                return M0(v=cur.v + new.v)
-            return M1(items=(*cur.items, *new.items))
+        def make_merge(mode):
+            # both merge callables come from ONE factory: same code object, different behaviour
+            def merge(cur, new):
+                if cur is MISSING:
+                    return new
+                if mode == "first":
+                    return cur
+                if isinstance(new, M0):
+                    return M0(v=cur.v + new.v)
+                return M1(items=(*cur.items, *new.items))
+            return merge
 
-        def m_first(cur, new):
-            return new if cur is MISSING else cur
+        m_sum, m_first = make_merge("sum"), make_merge("first")
 
         for f in self.frames:
             m = f.metrics_obj
